@@ -237,10 +237,34 @@ def scope(ctx):
                         clean_locals.add(nm)
         Gc = guard_region(ma, lambda d: d[0] == "field" and any(d[1] == n or n in d[1] for n in clean_locals), True)
     ctx.need(Gc, "region of main guarded by the --clean flag")
-    def req_some(d):
-        return (d[0] == "call" and d[1].endswith("::is_some") and d[2] and any(a[0] == "field" and "requested" in a[2] for a in d[2][0])) or (d[0] == "field" and "requested" in d[1])
-    Gs = guard_region(ma, req_some, True, within=Gc)
-    Gn = guard_region(ma, req_some, False, within=Gc)
+    # the captured variables of main's async block, identified by what they hold (not by their names): the requested names (an Option deriving from
+    # the TARGETS argument), the resolved targets (map TargetId -> Target), the loaded project directories (collection of paths)
+    m = r.main_body()
+    mraw = f.bodies[m.name]
+    cap = None
+    for blk in mraw.normal_blocks():
+        for st in blk["stmts"]:
+            if st["rv"]["k"] == "agg" and st["rv"].get("coroutine") == ma.name:
+                cap = st
+    ctx.need(cap, "construction of main's async block")
+    req_names, tgt_names, dir_names = set(), set(), set()
+    for nm, o in zip(cap["rv"].get("fields") or [], cap["rv"]["ops"]):
+        l = operand_local(o)
+        ty = mraw.locals[l]["ty"] if l is not None else ""
+        at = mraw.prov.operand_atoms(o)
+        if re.search(r"Option<", ty) and any(c.endswith("ArgMatches::values_of_lossy") or c.endswith("ArgMatches::values_of") for c in atom_callres(at)) and any(a[0] == "static" and a[1].endswith("TARGETS") for a in at):
+            req_names.add(nm)
+        if re.search(r"HashMap<[\w:]*TargetId, [\w:]*Target>", ty):
+            tgt_names.add(nm)
+        if re.search(r"(Vec|HashSet|BTreeSet)<[\w:]*PathBuf>", ty):
+            dir_names.add(nm)
+    ctx.need(req_names and tgt_names and dir_names, f"captured requested names / resolved targets / project directories of main's async block (found {sorted(req_names)}, {sorted(tgt_names)}, {sorted(dir_names)})")
+    def req_test(which):
+        def p(d):
+            return (d[0] == "call" and d[1].endswith("::" + which) and d[2] and any(a[0] == "field" and a[2] in req_names for a in d[2][0]))
+        return p
+    Gs = guard_region(ma, req_test("is_some"), True, within=Gc) | guard_region(ma, req_test("is_none"), False, within=Gc)
+    Gn = guard_region(ma, req_test("is_some"), False, within=Gc) | guard_region(ma, req_test("is_none"), True, within=Gc)
     n = 0
     # destructive sites: deletion API sites located in main's view, and calls (in main's view) of local fns that delete
     items = []
@@ -257,11 +281,11 @@ def scope(ctx):
     for (bb, role, ups, lab) in items:
         n += 1
         if role == "state":
-            ctx.check(bb in Gc and bb in Gs and any("targets" in u for u in ups), f"main/{lab}@{role}", [site(ma, bb)], "recorded state is deleted outside `--clean <targets>` or not for the resolved targets")
+            ctx.check(bb in Gc and bb in Gs and bool(set(ups) & tgt_names), f"main/{lab}@{role}", [site(ma, bb)], "recorded state is deleted outside `--clean <targets>` or not for the resolved targets")
         elif role == "workdir":
-            ctx.check(bb in Gc and bb in Gn and any("project_dirs" in u for u in ups), f"main/{lab}@{role}", [site(ma, bb)], "work directories are removed outside `--clean` without targets, or not for the loaded project directories")
+            ctx.check(bb in Gc and bb in Gn and bool(set(ups) & dir_names), f"main/{lab}@{role}", [site(ma, bb)], "work directories are removed outside `--clean` without targets, or not for the loaded project directories")
         else:
-            ctx.check(bb in Gc and any("targets" in u for u in ups) and role in ("output-filtered", "output-plain"), f"main/{lab}@{role}@{bb}", [site(ma, bb)], "outputs are cleaned outside `--clean` or not for the resolved targets")
+            ctx.check(bb in Gc and bool(set(ups) & tgt_names) and role in ("output-filtered", "output-plain"), f"main/{lab}@{role}@{bb}", [site(ma, bb)], "outputs are cleaned outside `--clean` or not for the resolved targets")
     ctx.need(n >= 3, "destructive sites in main")
 
 
@@ -479,7 +503,11 @@ def predicate_atoms(ctx):
     r = ctx.r
     f = ctx.f
     for p in r.extension_predicates():
+        # the predicate's own code: its closures and the local helpers it calls (with their closures)
         bodies = subtree(f, p.name)
+        for x in sorted(f.cg.reach([p.name], cross_spawn=False)):
+            if x in f.bodies and not f.is_derived(f.bodies[x]) and f.bodies[x] not in bodies:
+                bodies.append(f.bodies[x])
         ends = []
         for b in bodies:
             for bb, t in b.calls():
@@ -488,7 +516,9 @@ def predicate_atoms(ctx):
         ctx.check(bool(ends), f"{short(p.name)}/suffix-test", [site(b, bb) for b, bb, t in ends] or [p.loc()], "the extension predicate does not compare with `ends_with` (e.g. compares `extension()`, which breaks multi-dot extensions)")
         fname = any(t["callee"]["base"].endswith("Path::file_name") for b in bodies for bb, t in b.calls())
         ctx.check(fname, f"{short(p.name)}/file-name", [p.loc()], "the extension predicate does not test the file *name*")
-        strict = [(b, bb) for b in bodies for bb, t in b.calls() if re.search(r"(OsStr|Path)::to_str$|OsString::into_string$", t["callee"]["base"])]
+        STRICT = r"(OsStr|Path)::to_str$|OsString::into_string$"
+        strict = [(b, bb) for b in bodies for bb, t in b.calls() if re.search(STRICT, t["callee"]["base"]) or
+                  any(a["k"] == "const" and "fn" in a and re.search(STRICT, a["fn"].split("::<")[0]) for a in t["args"])]   # also when passed as a function value (`.and_then(OsStr::to_str)`)
         ctx.check(not strict, f"{short(p.name)}/any-file-name", [site(b, bb) for b, bb in strict] or [p.loc()], "the file name is converted with a fallible UTF-8 conversion: a file whose name is not valid UTF-8 never matches its extension and silently drops out of state, cleaning and watching")
         # no-filter case accepted: is_none_or / explicit None edge returning true
         nofilter = any(re.search(r"Option::<.*>::(is_none_or|map_or)(::<.*>)?$", callee_decl(t)) for b in bodies for bb, t in b.calls()) or \
@@ -775,7 +805,59 @@ def state_path_pure(ctx):
     other_fields = {(a[1], a[2]) for a in at if a[0] == "field" and not path_ends(a[1], "TargetMetadata") and not a[1].startswith("(tuple") and not path_ends(a[1], "TargetId")}
     statics = {a[1] for a in at if a[0] == "static"}
     ext = {c for c in atom_callres(at) if re.search(r"std::env::|process::id|SystemTime|Instant|rand|current_dir|temp_dir", c)}
-    ctx.check("project_dir" in fields and not ext and not statics and b.argc == 1, f"{short(b.name)}/inputs", [b.loc()], props=["C18", "C03"], found=
+    inputs_ok = "project_dir" in fields and b.argc == 1
+    split_sites = []
+    if not inputs_ok and b.argc >= 2 and not fields:
+        # the directory and the id come in as separate parameters: every place that supplies them (through any number of pass-through functions) must
+        # supply the `project_dir` and the `id` of one and the same target
+        def supplied(body, pidx, depth=0):
+            """[(caller raw body, bb, {param index: operand})] of the outermost call sites that feed parameters `pidx` of `body`"""
+            out = []
+            fn = r.fn_of(body)
+            for (c, cbb) in f.cg.call_sites.get(fn.name, ()):
+                if cbb is None or f.is_derived(f.bodies[c]) or f.bodies[c].term(cbb)["k"] != "call":
+                    continue
+                cb = f.bodies[c]
+                ct = cb.term(cbb)
+                ops = {i: ct["args"][i - 1] for i in pidx if i - 1 < len(ct["args"])}
+                through = {}
+                for i, o in ops.items():
+                    at_ = cb.prov.operand_atoms(o, interproc=False)
+                    env = [a for a in at_ if a[0] == "field" and a[1].startswith("{env of")]
+                    params = [a[1] for a in at_ if a[0] == "param"]
+                    real = [a for a in at_ if a[0] in ("field", "callres") and not a[1].startswith("{env of")]
+                    if not real and (params or env) and depth < 4:
+                        # a pass-through: the caller's own parameter (directly, or captured by its async body)
+                        outer = r.fn_of(cb)
+                        if env:
+                            names = [l.get("name") for l in outer.locals[1:outer.argc + 1]]
+                            js = [names.index(a[2]) + 1 for a in env if a[2] in names]
+                        else:
+                            js = params
+                        if js:
+                            through[i] = js[0]
+                if len(through) == len(ops) and through:
+                    inv = {}
+                    for i, j in through.items():
+                        inv[j] = i
+                    for (cc, cbb2, ops2) in supplied(r.fn_of(cb), sorted(inv), depth + 1):
+                        out.append((cc, cbb2, {inv[j]: o for j, o in ops2.items()}))
+                else:
+                    out.append((cb, cbb, ops))
+            return out
+        dir_params = [i for i in range(1, b.argc + 1) if re.search(r"Path(Buf)?$", b.locals[i]["ty"].replace("&", "").strip())]
+        id_params = [i for i in range(1, b.argc + 1) if re.search(r"Target(Id|Metadata)$", b.locals[i]["ty"].replace("&", "").strip())]
+        sites_ = supplied(b, dir_params + id_params) if len(dir_params) == 1 and len(id_params) == 1 else []
+        inputs_ok = bool(sites_)
+        for (cb, cbb, ops) in sites_:
+            d_at = cb.prov.operand_atoms(ops[dir_params[0]], interproc=False) if dir_params[0] in ops else set()
+            i_at = cb.prov.operand_atoms(ops[id_params[0]], interproc=False) if id_params[0] in ops else set()
+            same = {a[1] for a in d_at if a[0] == "localname"} & {a[1] for a in i_at if a[0] == "localname"}
+            good = atom_has_field(d_at, "project_dir", "TargetMetadata") and (atom_has_field(i_at, "id", "TargetMetadata") or any("TargetMetadata" in cb.locals[l]["ty"] for l in [operand_local(ops[id_params[0]])] if l is not None)) and bool(same)
+            split_sites.append(site(cb, cbb))
+            if not good:
+                inputs_ok = False
+    ctx.check(inputs_ok and not ext and not statics, f"{short(b.name)}/inputs", split_sites[:6] or [b.loc()], props=["C18", "C03"], found=
               f"the state path depends on something else than the target's project directory and id (fields {sorted(fields)}, statics {sorted(statics)}, external {sorted(ext)})")
     # the id goes in through Display of the metadata / id: a Display argument built from the parameter
     def names_target(o):
